@@ -4,7 +4,10 @@ from auction_common import impl_exec, impl_exec_multi, nontrivial, classify  # n
 
 SHARDS = {'quick': 1, 'thorough': 16}
 TITLE = 'Auction proceeds clockwise from the dealer and ends exactly when it must'
-REQUIRED = ['turn_rotates', 'active_is_turn', 'per_seat_is_share', 'finishes_iff_ended', 'over_iff_ended_law',
+LEAN_TARGETS = ['BridgeVerif.Props.C02', 'BridgeVerif.Translated.Auction']
+AUDIT_PROPS = ['C02', 'Translated.Auction']
+REQUIRED = ['translated_run_is_model', 'translated_has_done_is_model', 'Translated.Auction.init_translated', 'Translated.Auction.take_bid_translated', 'Translated.Auction.run_translated', 'Translated.Auction.contract_translated',
+            'turn_rotates', 'active_is_turn', 'per_seat_is_share', 'finishes_iff_ended', 'over_iff_ended_law',
             'after_end_raises_and_unchanged', 'after_end_run_unchanged', 'auction_terminates', 'bound_is_attained']
 RULE = ('same campaign as C01 with a pass-heavy mix (three opening passes then a bid, passes separated by doubles, '
         '4th seat re-opening); after FINISHED further calls are offered and the whole observable state must stay frozen. '
@@ -13,6 +16,9 @@ REQUIRED_COUNTERS = {t: ['three_passes_then_bid', 'fourth_seat_reopens', 'passed
 TRUSTED = []
 ASSUMPTIONS = ['CPython list/dict semantics']
 
+
+# areas of the pure core whose TRANSLATION (Generated/PyCore.lean) is run next to the real code in this check
+TRANSLATED_AREAS = ('auction',)
 
 def cases(ctx):
     return ac.gen_cases(ctx, 500 if ctx.quick else 1500, 0 if ctx.quick else 2)
